@@ -650,6 +650,7 @@ func TestVariableModulus(t *testing.T) {
 		mode := m.mode
 		rec.Check(t, mode, m.n, func(rt *rapid.T) {
 			c := g.Draw(rt, "case")
+			rec.Begin(mode, c)
 			rec.Report(rt, mode, c, vrun(c, rec))
 		})
 	}
